@@ -77,6 +77,7 @@ def run(ctx):
     K.shape(res, 'C03._set_cell_to_context.marker_discipline', tgt, _marker, 'cycle rejection')
     K.shape(res, 'C03._set_cell_to_context.no_unguarded_descent', tgt, _every_formula_path_checks, 'cycle rejection')
     K.monitor_if_present(res, ctx, 'mon_c03')
+    K.monitor_if_present(res, ctx, 'mon_c03x')      # cells far from the corner, folds with many arguments
     res.assumptions += ['closure lemma CLOSED: every reference occurring in registered code names a registered key, given the '
                         'single producer and PARAM (translators only concatenate child translations) - PARAM is not checked '
                         'mechanically', 'faithfulness and cycle rejection: bounded']
